@@ -14,6 +14,24 @@ pub fn validate_attributes(attributable: &(impl Attributable + AsAttributables),
     }
 }
 
+/// Validates the attributes on a reference to a type that isn't visited as a [TypeRef] on its own:
+/// the underlying type of an enum, and the bases of an interface.
+pub fn validate_type_ref_attributes(attributes: Vec<&Attribute>, diagnostics: &mut Diagnostics) {
+    validate_repeated_attributes(&attributes, diagnostics);
+
+    // None of the attributes known to the compiler can be applied on a type reference;
+    // only attributes the compiler doesn't know about (language mapping attributes) can be.
+    for attribute in attributes {
+        if attribute.downcast::<attributes::Unparsed>().is_none() {
+            Diagnostic::new(Error::InvalidAttribute {
+                directive: attribute.kind.directive().to_owned(),
+            })
+            .set_span(attribute.span())
+            .push_into(diagnostics);
+        }
+    }
+}
+
 /// Validates a list of attributes to ensure attributes which are not allowed to be repeated are not repeated.
 pub fn validate_repeated_attributes(attributes: &[&Attribute], diagnostics: &mut Diagnostics) {
     let mut first_attribute_occurrence = HashMap::new();
